@@ -23,7 +23,7 @@ Fixpoint no_sample_ops (p : formula) : bool :=
 
 Definition supported (k : mkind) (p : formula) : bool :=
   match k with
-  | DiscOff => no_precedes p
+  | DiscOff => true   (* no visit method of the offline visitor raises: TimedPrecedes is evaluated (Offline.precedes_loop) *)
   | DiscOn => past_only p
   | DenseOff => no_sample_ops p
   | DenseOn => past_only p && no_sample_ops p
@@ -49,6 +49,18 @@ Theorem first_eval_ok k p : supported k p = true -> first_eval k p = Ok tt.
 Proof. unfold first_eval. intros ->. reflexivity. Qed.
 Theorem first_eval_reject k p : supported k p = false -> first_eval k p = Rtamt.
 Proof. unfold first_eval. intros ->. reflexivity. Qed.
+(* the discrete-time offline monitor evaluates every construct, pastified or not *)
+Theorem disc_off_supported p : supported DiscOff p = true.
+Proof. reflexivity. Qed.
+Theorem disc_off_pastified p q : supported_pastified DiscOff p q = true.
+Proof. reflexivity. Qed.
+(* precedes stays a discrete-time construct: both dense-time monitors reject it *)
+Theorem precedes_support b e f g :
+  supported DiscOff (Precedes b e f g) = true /\
+  supported DiscOn (Precedes b e f g) = (past_only f && past_only g) /\
+  supported DenseOff (Precedes b e f g) = false /\ supported DenseOn (Precedes b e f g) = false.
+Proof. repeat split. cbn [supported no_sample_ops]. apply andb_false_r. Qed.
+
 Theorem first_eval_never_crashes k p : first_eval k p <> Crash.
 Proof. unfold first_eval. destruct (supported k p); discriminate. Qed.
 
